@@ -1072,6 +1072,135 @@ func init() {
 		}
 		return "ok"
 	})
+	registerEval("newgames", func(a []string) string {
+		// newgames <kind> <hashMB> <depth> <fen6> ; moves: what an engine reports for a game does not depend on the games it played
+		// before - in particular a new game starts with a table of its own. Wirings: "morlock" is cmd/morlock's (plain alpha-beta,
+		// material, min-depth table factory passed with engine.WithTable); the other kinds use the engine's default factory.
+		kind := a[0]
+		hash, _ := strconv.Atoi(a[1])
+		depth, _ := strconv.Atoi(a[2])
+		i := 3
+		for i < len(a) && a[i] != ";" {
+			i++
+		}
+		start := strings.Join(a[3:i], " ")
+		var moves []string
+		if i < len(a) {
+			for _, m := range a[i+1:] {
+				if m != "" {
+					moves = append(moves, strings.TrimPrefix(m, "m:"))
+				}
+			}
+		}
+		ctx := context.Background()
+		// ONE option value shared by every engine built here, as a binary that builds several engines would share it
+		tableOpt := engine.WithTable(search.NewMinDepthTranspositionTable(1))
+		mk := func() *engine.Engine {
+			opts := []engine.Option{engine.WithOptions(engine.Options{Hash: uint(hash)})}
+			if kind == "morlock" {
+				opts = append(opts, tableOpt)
+				return engine.New(ctx, kind, "x", search.AlphaBeta{Eval: search.Leaf{Eval: eval.Material{}}}, opts...)
+			}
+			return engine.New(ctx, kind, "x", histEngines()[kind](&gate{}), opts...)
+		}
+		game := func(e *engine.Engine, st string, ms []string) string {
+			if err := e.Reset(ctx, st); err != nil {
+				return "err-reset"
+			}
+			var outs []string
+			for k := 0; k <= len(ms); k++ {
+				if k > 0 {
+					if e.Move(ctx, ms[k-1]) != nil {
+						return "err-move"
+					}
+				}
+				o2, err := e.Analyze(ctx, searchctl.Options{DepthLimit: lang.Some(uint(depth))})
+				if err != nil {
+					outs = append(outs, "no-analysis")
+					continue
+				}
+				var last search.PV
+				for pv := range o2 {
+					last = pv
+				}
+				e.Halt(ctx)
+				outs = append(outs, fmt.Sprintf("%d/%d/%s/%s", last.Depth, last.Nodes, fmtScore(last.Score), pvStr(last.Moves)))
+			}
+			return strings.Join(outs, "|")
+		}
+		e1 := mk()
+		ref := game(e1, start, moves)
+		if strings.HasPrefix(ref, "err") {
+			return ref
+		}
+		if got := game(e1, start, moves); got != ref {
+			return "MISMATCH the same game played again on the same engine: " + strings.ReplaceAll(got, " ", "_") + " vs " + strings.ReplaceAll(ref, " ", "_")
+		}
+		game(e1, fen.Initial, []string{"e2e4", "e7e5"})
+		if got := game(e1, start, moves); got != ref {
+			return "MISMATCH the same game after another game on the same engine"
+		}
+		e2 := mk()
+		if got := game(e2, start, moves); got != ref {
+			return "MISMATCH a second engine built from the same options: " + strings.ReplaceAll(got, " ", "_") + " vs " + strings.ReplaceAll(ref, " ", "_")
+		}
+		if got := game(e1, start, moves); got != ref {
+			return "MISMATCH the first engine after the second one played the game"
+		}
+		return "ok"
+	})
+	registerEval("twin", func(a []string) string {
+		// twin <kind> <fen6> ; moves: two engines are given the same game; one analyses (to depth 1, to the end) before every
+		// move, the other never does. Everything they report about the game - position, clocks, hash, result (repetitions!),
+		// last moves - must be equal after every move, and so must a final analysis. An analysis never alters the game.
+		kind := a[0]
+		i := 1
+		for i < len(a) && a[i] != ";" {
+			i++
+		}
+		start := strings.Join(a[1:i], " ")
+		var moves []string
+		if i < len(a) {
+			for _, m := range a[i+1:] {
+				if m != "" {
+					moves = append(moves, strings.TrimPrefix(m, "m:"))
+				}
+			}
+		}
+		ctx := context.Background()
+		ea, _ := wiredEngine(kind, 0)
+		eb, _ := wiredEngine(kind, 0)
+		if ea.Reset(ctx, start) != nil || eb.Reset(ctx, start) != nil {
+			return "err"
+		}
+		z := zobrist(0)
+		analyse := func(e *engine.Engine, d uint) string {
+			o2, err := e.Analyze(ctx, searchctl.Options{DepthLimit: lang.Some(d)})
+			if err != nil {
+				return "no-analysis"
+			}
+			var last search.PV
+			for pv := range o2 {
+				last = pv
+			}
+			e.Halt(ctx)
+			return fmt.Sprintf("%d/%d/%s/%s", last.Depth, last.Nodes, fmtScore(last.Score), pvStr(last.Moves))
+		}
+		for k, m := range moves {
+			analyse(ea, 1)
+			errA, errB := ea.Move(ctx, m), eb.Move(ctx, m)
+			if (errA == nil) != (errB == nil) {
+				return fmt.Sprintf("MISMATCH move %d (%s) accepted by one engine only", k, m)
+			}
+			if ga, gb := ea.Position()+" "+obsBoard(z, ea.Board()), eb.Position()+" "+obsBoard(z, eb.Board()); ga != gb {
+				return fmt.Sprintf("MISMATCH after move %d (%s) the engine that analysed reports %s, the other %s", k, m, strings.ReplaceAll(ga, " ", "_"), strings.ReplaceAll(gb, " ", "_"))
+			}
+		}
+		if ra, rb := analyse(ea, 2), analyse(eb, 2); ra != rb {
+			return "MISMATCH final analysis: " + strings.ReplaceAll(ra, " ", "_") + " vs " + strings.ReplaceAll(rb, " ", "_")
+		}
+		return "ok"
+	})
 	registerEval("supersede", func(a []string) string {
 		// supersede <kind> <n> <depth> <moveA> <moveB>: n times on a fresh engine (wired as the binaries wire it: ONE search
 		// object per engine): play moveA, start a deep analysis and supersede it at once (Halt, play moveB, analyse at <depth>) -
@@ -1178,6 +1307,50 @@ func init() {
 			ms := playoutMoves(r, fen.Initial, 3)
 			o.do(fmt.Sprintf("published noise %d %s", r.Int63n(1000), strings.Join(ms, " ")))
 			o.Count("noise")
+		}
+		// games in sequence on one engine, and engines built from one option value: each game gets a table of its own
+		ng := 4
+		if thorough {
+			ng = 120
+		}
+		for i := 0; i < ng; i++ {
+			kind := []string{"morlock", "morlock", "plain", "turochamp"}[i%4]
+			start, moves := fen.Initial, playoutMoves(r, fen.Initial, 2+r.Intn(3))
+			if i%2 == 1 {
+				start = "r3k2r/p1ppqpb1/bn2pnp1/3PN3/1p2P3/2N2Q1p/PPPBBPPP/R3K2R w KQkq - 0 1"
+				moves = playoutMoves(r, start, 1+r.Intn(2))
+			}
+			d := 3
+			if kind == "turochamp" {
+				d = 1
+			}
+			line := fmt.Sprintf("published newgames %s %d %d %s ; %s", kind, 1+r.Intn(2), d, start, strings.Join(moves, " "))
+			o.do(line)
+			o.Count("newgames:" + kind)
+			o.Nontrivial(line)
+		}
+		// an engine that analyses before every move and one that never does: the same game, through repetitions
+		shuffles := [][]string{
+			{"g1f3", "g8f6", "f3g1", "f6g8", "g1f3", "g8f6", "f3g1", "f6g8", "g1f3"},
+			{"e2e4", "e7e5", "g1f3", "b8c6", "f3g1", "c6b8", "g1f3", "b8c6", "f3g1", "c6b8", "g1f3"},
+			{"b1c3", "b8c6", "c3b1", "c6b8", "b1c3", "b8c6", "c3b1", "c6b8", "e2e4"},
+		}
+		tw := 4
+		if thorough {
+			tw = 60
+		}
+		for i := 0; i < tw; i++ {
+			kind := kinds[i%4]
+			ms := shuffles[r.Intn(len(shuffles))]
+			start := fen.Initial
+			if i >= 4 && r.Intn(2) == 0 { // a pawn ending with king shuffles (repetitions one ply before the end)
+				start = "6k1/8/8/p7/P7/7P/8/6K1 w - - 0 1"
+				ms = []string{"g1f2", "g8f7", "f2g1", "f7g8", "g1f2", "g8f7", "f2g1", "f7g8", "g1f2"}
+			}
+			line := fmt.Sprintf("published twin %s %s ; %s", kind, start, strings.Join(ms, " "))
+			o.do(line)
+			o.Count("twin:" + kind)
+			o.Nontrivial(line)
 		}
 		// a search superseding one that is still unwinding (or entering its next iteration) returns what it returns alone
 		sn := 150
